@@ -230,7 +230,7 @@ def StatServicePack_WriteRec : List String :=
   ["o.WriteInt(m.Hash)", "o.WriteBool(m.Profiled)", "o.WriteDecimal(int64(m.Count))", "o.WriteDecimal(int64(m.Error))", "o.WriteDecimal(int64(m.Actived))", "o.WriteDecimal(m.TimeSum)", "o.WriteDecimal(m.TimeStd)", "o.WriteDecimal(int64(m.TimeMin))", "o.WriteDecimal(int64(m.TimeMax))", "o.WriteDecimal(int64(m.SqlCount))", "o.WriteDecimal(m.SqlTime)", "o.WriteDecimal(int64(m.SqlFetch))", "o.WriteDecimal(m.SqlFetchTime)", "o.WriteDecimal(int64(m.SqlUpdateRecord))", "o.WriteDecimal(int64(m.SqlCommitCount))", "o.WriteDecimal(int64(m.SqlSelect))", "o.WriteDecimal(int64(m.SqlUpdate))", "o.WriteDecimal(int64(m.SqlDelete))", "o.WriteDecimal(int64(m.SqlInsert))", "o.WriteDecimal(int64(m.SqlOthers))", "o.WriteDecimal(int64(m.HttpcCount))", "o.WriteDecimal(m.HttpcTime)", "o.WriteDecimal(m.MallocSum)", "o.WriteDecimal(m.CpuSum)", "o.WriteDecimal(int64(m.Status200))", "o.WriteDecimal(int64(m.Status300))", "o.WriteDecimal(int64(m.Status400))", "o.WriteDecimal(int64(m.Status500))", "if m.SqlMap == nil {", "o.WriteDecimal(0)", "} else {", "o.WriteDecimal(int64(m.SqlMap.Size()))", "en := m.SqlMap.Entries()", "for en.HasMoreElements() {", "o.WriteInt(ent.GetKey())", "o.WriteDecimal(int64(ent.GetValue().(*TimeCount).Count))", "o.WriteDecimal(int64(ent.GetValue().(*TimeCount).Error))", "o.WriteDecimal(ent.GetValue().(*TimeCount).Time)", "}", "}", "if m.HttpcMap == nil {", "o.WriteDecimal(0)", "} else {", "o.WriteDecimal(int64(m.HttpcMap.Size()))", "en := m.HttpcMap.Entries()", "for en.HasMoreElements() {", "o.WriteInt(ent.GetKey())", "o.WriteDecimal(int64(ent.GetValue().(*TimeCount).Count))", "o.WriteDecimal(int64(ent.GetValue().(*TimeCount).Error))", "o.WriteDecimal(ent.GetValue().(*TimeCount).Time)", "}", "}"]
 
 def ReadRec : List String :=
-  ["m := NewServiceRec()", "m.Hash = in.ReadInt()", "m.Profiled = in.ReadBool()", "m.Count = int32(in.ReadDecimal())", "m.Error = int32(in.ReadDecimal())", "m.Actived = int32(in.ReadDecimal())", "m.TimeSum = in.ReadDecimal()", "m.TimeStd = in.ReadDecimal()", "m.TimeMin = int32(in.ReadDecimal())", "m.TimeMax = int32(in.ReadDecimal())", "m.SqlCount = int32(in.ReadDecimal())", "m.SqlTime = in.ReadDecimal()", "m.SqlFetch = int32(in.ReadDecimal())", "m.SqlFetchTime = in.ReadDecimal()", "m.SqlUpdateRecord = int32(in.ReadDecimal())", "m.SqlCommitCount = int32(in.ReadDecimal())", "m.SqlSelect = int32(in.ReadDecimal())", "m.SqlUpdate = int32(in.ReadDecimal())", "m.SqlDelete = int32(in.ReadDecimal())", "m.SqlInsert = int32(in.ReadDecimal())", "m.SqlOthers = int32(in.ReadDecimal())", "m.HttpcCount = int32(in.ReadDecimal())", "m.HttpcTime = in.ReadDecimal()", "m.MallocSum = in.ReadDecimal()", "m.CpuSum = in.ReadDecimal()", "m.Status200 = int32(in.ReadDecimal())", "m.Status300 = int32(in.ReadDecimal())", "m.Status400 = int32(in.ReadDecimal())", "m.Status500 = int32(in.ReadDecimal())", "sqlcnt := int(in.ReadDecimal())", "if sqlcnt > 0 {", "m.SqlMap = CreateMap(sqlcnt)", "for i < sqlcnt {", "hash := in.ReadInt()", "count := int32(in.ReadDecimal())", "err := int32(in.ReadDecimal())", "time := in.ReadDecimal()", "m.SqlMap.Put(hash, NewTimeCount(count, err, time))", "}", "}", "httpcnt := int(in.ReadDecimal())", "if httpcnt > 0 {", "m.HttpcMap = CreateMap(httpcnt)", "for i < httpcnt {", "hash := in.ReadInt()", "count := int32(in.ReadDecimal())", "err := int32(in.ReadDecimal())", "time := in.ReadDecimal()", "m.HttpcMap.Put(hash, NewTimeCount(count, err, time))", "}", "}", "return m"]
+  ["m := NewServiceRec()", "m.Hash = in.ReadInt()", "m.Profiled = in.ReadBool()", "m.Count = int32(in.ReadDecimal())", "m.Error = int32(in.ReadDecimal())", "m.Actived = int32(in.ReadDecimal())", "m.TimeSum = in.ReadDecimal()", "m.TimeStd = in.ReadDecimal()", "m.TimeMin = int32(in.ReadDecimal())", "m.TimeMax = int32(in.ReadDecimal())", "m.SqlCount = int32(in.ReadDecimal())", "m.SqlTime = in.ReadDecimal()", "m.SqlFetch = int32(in.ReadDecimal())", "m.SqlFetchTime = in.ReadDecimal()", "m.SqlUpdateRecord = int32(in.ReadDecimal())", "m.SqlCommitCount = int32(in.ReadDecimal())", "m.SqlSelect = int32(in.ReadDecimal())", "m.SqlUpdate = int32(in.ReadDecimal())", "m.SqlDelete = int32(in.ReadDecimal())", "m.SqlInsert = int32(in.ReadDecimal())", "m.SqlOthers = int32(in.ReadDecimal())", "m.HttpcCount = int32(in.ReadDecimal())", "m.HttpcTime = in.ReadDecimal()", "m.MallocSum = in.ReadDecimal()", "m.CpuSum = in.ReadDecimal()", "m.Status200 = int32(in.ReadDecimal())", "m.Status300 = int32(in.ReadDecimal())", "m.Status400 = int32(in.ReadDecimal())", "m.Status500 = int32(in.ReadDecimal())", "sqlcnt := int(in.ReadDecimal())", "if sqlcnt > 0 {", "in.CheckCount(sqlcnt, 7)", "m.SqlMap = CreateMap(sqlcnt)", "for i < sqlcnt {", "hash := in.ReadInt()", "count := int32(in.ReadDecimal())", "err := int32(in.ReadDecimal())", "time := in.ReadDecimal()", "m.SqlMap.Put(hash, NewTimeCount(count, err, time))", "}", "}", "httpcnt := int(in.ReadDecimal())", "if httpcnt > 0 {", "in.CheckCount(httpcnt, 7)", "m.HttpcMap = CreateMap(httpcnt)", "for i < httpcnt {", "hash := in.ReadInt()", "count := int32(in.ReadDecimal())", "err := int32(in.ReadDecimal())", "time := in.ReadDecimal()", "m.HttpcMap.Put(hash, NewTimeCount(count, err, time))", "}", "}", "return m"]
 
 def SMDownCheckPack_SetRecords : List String :=
   ["out := io.NewDataOutputX()", "sz := len(items)", "out.WriteShort(int16(sz))", "for i < sz {", "this.WriteRec(out, items[i])", "}", "this.Records = out.ToByteArray()", "this.RecordCount = int32(sz)"]
